@@ -276,10 +276,10 @@ type Call struct {
 // Inst is one API value with stubs installed.
 type Inst struct {
 	PresetHeader http.Header // headers already present on the ResponseWriter when the API is entered
-	P     *Pkg
-	V     reflect.Value // *API
-	H     http.Handler
-	Calls []Call
+	P            *Pkg
+	V            reflect.Value // *API
+	H            http.Handler
+	Calls        []Call
 	// Respond chooses the response value for a call (nil: DefaultResponse).
 	Respond func(c *Call) reflect.Value
 	// NoParse: stubs do not call Parse().
@@ -307,6 +307,13 @@ func ParseReq(op *Op, req reflect.Value) (params reflect.Value, err error, panic
 		}
 	}
 	return params, err, ""
+}
+
+// BodyOfUnknownLength wraps body so that net/http cannot see its length: the request
+// then has ContentLength -1, as a chunked (streamed) upload or an HTTP/2 request
+// without content-length has.
+func BodyOfUnknownLength(body []byte) io.Reader {
+	return struct{ io.Reader }{bytes.NewReader(body)}
 }
 
 // NewInst builds an API value whose operation handlers are recording stubs.
